@@ -209,22 +209,40 @@ class Run:
 
     # -- parallel map -------------------------------------------------------------------------
     def pmap(self, func: Callable, items: Iterable, chunksize: int = 1,
-             workers: Optional[int] = None, timeout: Optional[float] = None):
+             workers: Optional[int] = None, timeout: Optional[float] = None,
+             surround: bool = True):
         """Map `func` over items in forked worker processes, yielding (item, result).
-        A dying or hanging worker makes the run inconclusive, it never hangs the driver."""
+        A dying or hanging worker makes the run inconclusive, it never hangs the driver.
+        With `surround`, every other chunk is evaluated in a child interpreter whose
+        surroundings differ from this one's (vlib.surroundings)."""
+        from . import surroundings  # pylint: disable=import-outside-toplevel
         items = list(items)
         workers = min(workers or NCPU, max(1, len(items)))
+        chunks = [items[i:i + chunksize] for i in range(0, len(items), chunksize)]
+        if surroundings.CURRENT or os.environ.get('VERIF_NO_SURROUNDINGS'):
+            surround = False
+        where = [surroundings.name_for(no, self.tier) if surround else ''
+                 for no in range(len(chunks))]
         if workers <= 1 or os.environ.get('VERIF_SERIAL'):
-            for item in items:
-                yield item, func(item)
+            for chunk, name in zip(chunks, where):
+                res = surroundings.run_chunk(name, func, chunk) if name else \
+                    [func(item) for item in chunk]
+                if name:
+                    self.count(f'work_items_evaluated_in_a_child_interpreter_with_surroundings_{name}',
+                               len(chunk))
+                for item, out in zip(chunk, res):
+                    yield item, out
             return
         ctx = multiprocessing.get_context('fork')
-        chunks = [items[i:i + chunksize] for i in range(0, len(items), chunksize)]
         with cf.ProcessPoolExecutor(max_workers=workers, mp_context=ctx) as pool:
-            futs = [pool.submit(_run_chunk, func, chunk) for chunk in chunks]
+            futs = [pool.submit(surroundings.run_chunk, name, func, chunk) if name else
+                    pool.submit(_run_chunk, func, chunk) for chunk, name in zip(chunks, where)]
             try:
-                for chunk, fut in zip(chunks, futs):
+                for chunk, fut, name in zip(chunks, futs, where):
                     res = fut.result(timeout=timeout)
+                    if name:
+                        self.count(f'work_items_evaluated_in_a_child_interpreter_with_surroundings_{name}',
+                                   len(chunk))
                     for item, out in zip(chunk, res):
                         yield item, out
             except cf.TimeoutError:
@@ -408,7 +426,13 @@ def generic_replay(prop: str, eval_case: Callable[[Any], dict], replay_dir: str)
     """Re-evaluate the stored case of a replay directory and print what it yields."""
     with open(os.path.join(replay_dir, 'replay.json'), encoding='utf-8') as fh:
         body = json.load(fh)
-    res = eval_case(body['case'])
+    where = body['case'].get('surroundings') if isinstance(body['case'], dict) else None
+    if where:
+        from . import surroundings  # pylint: disable=import-outside-toplevel
+        print(f'(evaluated in a child interpreter, surroundings: {where})')
+        res = surroundings.run_chunk(where, eval_case, [body['case']])[0]
+    else:
+        res = eval_case(body['case'])
     viols = res.get('violations', [])
     print(json.dumps(jsonable(res), indent=1)[:4000])
     if viols:
@@ -428,6 +452,19 @@ def absorb(run: 'Run', case: Any, res: dict):
     for v in res.get('violations', []):
         run.violation(v['mechanism'], v.get('detail'), v.get('case', case), v.get('files'),
                       v.get('klass'))
+
+
+_DERIVED: Dict[Any, Any] = {}
+
+
+def derived(cls):
+    """A caller's own subclass of a library class: it adds a helper method and changes nothing
+    (a project's convenience wrapper).  What the library does with an instance may not depend
+    on the name of its type."""
+    if cls not in _DERIVED:
+        _DERIVED[cls] = type('Project' + cls.__name__ + 'Helper', (cls,),
+                             {'describe': lambda self: f'<{type(self).__name__}>'})
+    return _DERIVED[cls]
 
 
 class quiet:
